@@ -303,7 +303,7 @@ Proof.
     destruct (sym_next cs) as [[[s r]|]|e0|p|] eqn:Es; try discriminate.
     destruct (is_char s sym_dot).
     + destruct (sym_next r) as [[[s2 r2]|]|e1|p1|]; try discriminate.
-      cbn [raw_append app]. intros E; injection E as <-. exists []. split; [|reflexivity].
+      unfold const_from_symbols_root. cbn [raw_append app]. intros E; injection E as <-. exists []. split; [|reflexivity].
       split; [constructor|cbn; lia].
     + destruct (push_symbol None b_init s) as [st1 [[]|e1|p1|]] eqn:Ep; try discriminate.
       pose proof (push_symbol_inv _ _ _ _ _ inv_init Es Ep) as Hi1.
@@ -369,3 +369,118 @@ Example owned_label_examples :
   owned_label_from_chars [97; 92; 91]%N = Ok [97; 91]%N /\ owned_label_from_chars (repeat 97%N 64) = Err E_LongLabel /\
   owned_label_from_chars [92; 233]%N = Ok [233]%N /\ owned_label_from_chars [92; 128512]%N = Ok [0]%N.
 Proof. vm_compute. repeat split; reflexivity. Qed.
+
+(* ---------------------------------------------------------------- serde / UncertainName *)
+Theorem serde_de_rel_valid cs w : serde_de_rel None cs = Ok w -> exists n, valid_rel n /\ w = wire_rel n.
+Proof.
+  unfold serde_de_rel. destruct serde_rel_checks_absolute.
+  - apply (proj1 (proj2 (from_chars_valid cs))).
+  - destruct (append_syms (S (length cs)) None b_init cs) as [[st2 [e|]]|e2|p2|] eqn:Ea; try discriminate.
+    pose proof (append_syms_inv _ _ _ _ _ inv_init Ea) as (a & Hr & Hv). intros H.
+    destruct (finish_spec a st2 Hv Hr) as (H1 & H2). rewrite H1 in H. injection H as <-. eauto.
+Qed.
+
+(* reading the displayed labels and continuing with more text *)
+Lemma text_names_rest more : forall cl c l st fuel rest,
+  Forall valid_label cl -> valid_label (c ++ l) -> wf_bytes c -> wf_bytes l -> Forall valid_label more ->
+  (wire_len (cl ++ (c ++ l) :: more) <= 254)%nat -> repr (mkopen cl c) st ->
+  (length (display_label l ++ (tail_text more ++ rest)) < fuel)%nat ->
+  exists fuel' st' cl' lastl, append_syms fuel None st (display_label l ++ (tail_text more ++ rest)) = append_syms fuel' None st' rest /\
+    (length rest < fuel')%nat /\ cl' ++ [lastl] = cl ++ (c ++ l) :: more /\ repr (mkopen cl' lastl) st'.
+Proof.
+  induction more as [|m ms IH]; intros cl c l st fuel rest Hcl [[V1 V2] V3] Hc Hl Hm Hlen Hr Hf;
+    rewrite wire_len_app in Hlen; cbn [wire_len] in Hlen; rewrite app_length in V1, V2, Hlen.
+  - cbn [tail_text app] in *.
+    destruct (text_label cl l c st fuel rest Hcl Hc Hl Hr) as (fuel' & st' & E & F & R); try lia; auto.
+    exists fuel', st', cl, (c ++ l). auto.
+  - inversion Hm as [|? ? Hm1 Hm2]; subst. cbn [wire_len] in Hlen.
+    set (rest' := tail_text (m :: ms) ++ rest) in *.
+    destruct (text_label cl l c st fuel rest' Hcl Hc Hl Hr) as (fuel' & st' & E & F & R); try lia; auto.
+    rewrite E. subst rest'. cbn [tail_text app] in *. destruct fuel' as [|f']; [lia|].
+    cbn [append_syms]. unfold sym_next at 1, backslash, sym_dot.
+    change (46 =? 92) with false. cbn [negb]. unfold push_symbol, is_char, sym_dot.
+    change (46 =? 46) with true.
+    assert (Hw : awf (mkopen cl (c ++ l))).
+    { apply awf_mkopen; [exact Hcl|rewrite app_length; lia|apply wf_bytes_app; auto]. }
+    assert (Hin : in_label st' = true).
+    { unfold in_label. rewrite (repr_head _ _ R). unfold mkopen. cbn [opn].
+      destruct (c ++ l) eqn:El; [apply (f_equal (@length N)) in El; rewrite app_length in El; cbn [length] in El; lia|]. reflexivity. }
+    rewrite Hin. cbn [negb].
+    destruct (end_ok _ st' Hw R) as (st2 & E2 & R2). rewrite E2.
+    assert (Ha : aend (mkopen cl (c ++ l)) = mkopen (cl ++ [c ++ l]) []).
+    { unfold aend, mkopen. cbn [closed opn]. destruct (c ++ l) eqn:El; [apply (f_equal (@length N)) in El; rewrite app_length in El; cbn [length] in El; lia|]. reflexivity. }
+    rewrite Ha in R2. destruct Hm1 as [[M1 M2] M3].
+    rewrite display_labels_cons, <- app_assoc.
+    destruct (IH (cl ++ [c ++ l]) [] m st2 f' rest) as (f3 & st3 & cl3 & l3 & E3 & F3 & C3 & R3); auto.
+    + apply Forall_app. split; [exact Hcl|]. constructor; [|constructor].
+      split; [rewrite app_length; lia|apply wf_bytes_app; auto].
+    + cbn [app]. repeat split; auto.
+    + constructor.
+    + rewrite wire_len_app. cbn [wire_len app]. rewrite wire_len_app. cbn [wire_len]. rewrite app_length. lia.
+    + rewrite display_labels_cons, <- app_assoc in F. cbn [length] in F. lia.
+    + exists f3, st3, cl3, l3. split; [exact E3|]. split; [exact F3|]. split; [|exact R3].
+      rewrite C3. rewrite <- app_assoc. reflexivity.
+Qed.
+
+(* Display for UncertainName and back through UncertainName::from_chars (FromStr,
+   serde): a relative name always; an absolute name unless it is the root and
+   the source does not special-case it *)
+Theorem uncertain_display_parse_roundtrip n :
+  (valid_rel n -> uncertain_from_chars None (display_uncertain false n) = Ok (false, wire_rel n)) /\
+  (valid_abs n -> n <> [] \/ uncertain_display_root_special = true ->
+     uncertain_from_chars None (display_uncertain true n) = Ok (true, wire_abs n)).
+Proof.
+  split.
+  - intros [Hv Hl]. unfold uncertain_from_chars, display_uncertain, display_relative.
+    destruct n as [|l n']; [reflexivity|].
+    inversion Hv as [|? ? [[L1 L2] L3] Hv']; subst. rewrite display_labels_cons.
+    assert (P2 : valid_label ([] ++ l)) by (cbn [app]; repeat split; auto).
+    assert (R0 : repr (mkopen [] []) b_init) by reflexivity.
+    destruct (text_names n' [] [] l b_init (S (length (display_label l ++ tail_text n')))
+                ltac:(constructor) P2 ltac:(constructor) L3 Hv' Hl R0 ltac:(lia)) as (st' & E & _ & F & I).
+    rewrite E, I. cbn [orb app bind] in *. rewrite F. reflexivity.
+  - intros [Hv Hl] Hk. unfold uncertain_from_chars, display_uncertain.
+    destruct n as [|l n'].
+    + destruct Hk as [Hk|Hk]; [congruence|]. rewrite Hk. reflexivity.
+    + rewrite andb_false_r. unfold display_name. rewrite display_labels_cons, <- app_assoc.
+      inversion Hv as [|? ? [[L1 L2] L3] Hv']; subst.
+      assert (P2 : valid_label ([] ++ l)) by (cbn [app]; repeat split; auto).
+      assert (R0 : repr (mkopen [] []) b_init) by reflexivity.
+      destruct (text_names_rest n' [] [] l b_init (S (length (display_label l ++ (tail_text n' ++ [sym_dot])))) [sym_dot]
+                  ltac:(constructor) P2 ltac:(constructor) L3 Hv' Hl R0 ltac:(lia))
+        as (f' & st' & cl' & lastl & E & F & C & R).
+      rewrite E. cbn [app] in C.
+      assert (Hall : Forall valid_label (cl' ++ [lastl])) by (rewrite C; exact Hv).
+      apply Forall_app in Hall as [Hcl' Hlast]. inversion Hlast as [|? ? [[A1 A2] A3] _]; subst.
+      destruct f' as [|f2]; [cbn in F; lia|]. destruct f2 as [|f3]; [cbn in F; lia|].
+      cbn [append_syms]. unfold sym_next at 1, backslash, sym_dot.
+      change (46 =? 92) with false. cbn [negb]. unfold push_symbol, is_char, sym_dot.
+      change (46 =? 46) with true.
+      assert (Hw : awf (mkopen cl' lastl)) by (apply awf_mkopen; auto).
+      assert (Hin : in_label st' = true).
+      { unfold in_label. rewrite (repr_head _ _ R). unfold mkopen. cbn [opn]. destruct lastl; [cbn in A1; lia|reflexivity]. }
+      rewrite Hin. cbn [negb].
+      destruct (end_ok _ st' Hw R) as (st2 & E2 & R2). rewrite E2. cbn [append_syms sym_next].
+      assert (Ha : aend (mkopen cl' lastl) = mk_a (l :: n') None).
+      { unfold aend, mkopen. cbn [closed opn]. destruct lastl; [cbn in A1; lia|]. rewrite C. reflexivity. }
+      rewrite Ha in R2. unfold repr in R2. cbn [opn closed] in R2. subst st2.
+      cbn [in_label head buf orb].
+      assert (Hnil : is_nil (wire_rel (l :: n')) = false).
+      { unfold wire_rel. cbn [map concat]. reflexivity. }
+      rewrite Hnil.
+      assert (Hav : avalid (mk_a (l :: n') None)).
+      { split; [split; [exact Hv|exact I]|]. unfold alen. cbn [closed opn]. lia. }
+      destruct (into_name_spec None _ (mk_b (wire_rel (l :: n')) None) Hav ltac:(reflexivity)) as (H1 & _ & _).
+      rewrite H1. reflexivity.
+Qed.
+
+(* the root name as an UncertainName: displayed ".." while the source does not special-case it *)
+Theorem uncertain_root_display_refuted : uncertain_display_root_special = false ->
+  display_uncertain true [] = [46; 46]%N /\ uncertain_from_chars None (display_uncertain true []) = Err T_EmptyLabel.
+Proof.
+  intros H. unfold display_uncertain. rewrite H. split; reflexivity.
+Qed.
+
+Theorem serde_rel_absolute_refuted : serde_rel_checks_absolute = false ->
+  serde_de_rel None [97; 46]%N = Ok [1; 97]%N /\ rel_from_chars None [97; 46]%N = Err T_AbsoluteName.
+Proof. intros H. unfold serde_de_rel. rewrite H. split; reflexivity. Qed.
